@@ -179,5 +179,30 @@ def oracle(ctx):
                 res.oracle_failures.append(dict(op='e2e ' + ' '.join(args), input=dict(unit_type=ty, key=nm, directory_depth=depth, path_bytes=depth * 240),
                                                 impl_output=dict(exit=rc, errors=[l[:200] + ' … ' + l[-200:] if len(l) > 420 else l for l in errs][:3]),
                                                 oracle_expectation=f'exit status 1 and an error line naming the key {nm!r} and the file bad-unit.{ty}'))
+    # misspellings whose name has a character that no key can have ('_', '.', '!', a non-ASCII letter): still "a key that is not among the
+    # documented keys" — whichever layer rejects it, the unit fails with an error naming the key and the file, and no service is generated
+    odd = [(ty, nm, secn) for ty in G.TYPES for nm, secn in (('Publish_Port', None), ('Volume.Name', None), ('Image!', None), ('Default_Dependencies', 'Quadlet'))]
+    if not ctx.thorough:
+        odd = ctx.rnd.sample(odd, 10)
+
+    def run_odd(c):
+        ty, nm, secn = c
+        base = e2e.fresh_dir()
+        os.makedirs(os.path.join(base, 'src'))
+        good = '[' + G.SEC[ty] + ']\n' + ''.join(b + '\n' for b in G.BASE[ty])
+        with open(os.path.join(base, 'src', 'odd-unit.' + ty), 'w') as f:
+            f.write(good + (f'[{secn}]\n' if secn else '') + nm + '=1\n')
+        with open(os.path.join(base, 'src', 'fine.volume'), 'w') as f:
+            f.write('[Volume]\n')
+        rc, so, se = e2e.run_binary(['--dry-run', '--no-kmsg-log', os.path.join(base, 'out')], os.path.join(base, 'src'))
+        shutil.rmtree(base, ignore_errors=True)
+        return rc, so, se
+    for (ty, nm, secn), (rc, so, se) in zip(odd, e2e.pmap(run_odd, odd)):
+        res.oracle_evals += 1
+        errs = [l for l in se.split('\n') if 'ERROR' in l]
+        if rc != 1 or 'odd-unit' in so or not any(nm in l and 'odd-unit.' + ty in l for l in errs) or 'fine-volume.service' not in so:
+            res.oracle_failures.append(dict(op='e2e --dry-run', input=dict(unit_type=ty, key=nm, section=secn or G.SEC[ty]),
+                                            impl_output=dict(exit=rc, errors=errs[:3], printed='odd-unit' in so),
+                                            oracle_expectation=f'exit status 1, an error line naming the key {nm!r} and the file odd-unit.{ty}, no service for it, the unit beside it generated'))
     res.samples.append(dict(kind='oracle-case', unit=cs[0][1], expected_unknown_key=cs[0][2]))
     ctx.log(f'oracle: {res.oracle_evals} evaluations, {len(res.oracle_failures)} failures')
